@@ -3,6 +3,7 @@ decisions at the Engine API (run / restart / kill), so that windows the Controll
 restart() and the delayed launch of the new task) are exercised too."""
 from __future__ import annotations
 
+import os
 import threading
 import time
 from typing import Any, Dict, List, Optional
@@ -166,4 +167,102 @@ def judge(sc: Dict[str, Any], policy: Dict[str, Any], res: Dict[str, Any]):
                 last_end = None
             elif end == "Killed":
                 cnt["eng_restart_after_kill_refused"] += 1
+    return viol, cnt
+
+
+def run_repeating_restart(sc: Dict[str, Any], location: str, watchdog_s: float = 60.0) -> Dict[str, Any]:
+    """RepeatingEngine.restart policy (at most one restart, only after ResourceExhausted): a real repeating
+    engine is driven to its end (producers finished), then the harness plays the controller and calls restart()
+    as long as it is granted (bounded), with the scripted exit reason of every execution."""
+    from . import repeating
+    harness.install_hooks()
+    harness.CTX.current_root = location
+    BACKEND.current_root = location
+    REC.reset()
+    _uid["n"] += 1
+    tag = "r" + "".join("abcdefghij"[int(c)] for c in str(_uid["n"]))
+    obs = "stage0.Obs" + tag
+    script = {"default": {"reason": "Success", "duration": 0.5}, "components": {obs: sc["obs_script"]},
+              "tail": {obs: sc["obs_tail"]}}
+    BACKEND.reset(script)
+    BACKEND.current_root = location
+    BACKEND.launch_sampler = None
+    res: Dict[str, Any] = {"build_error": None, "ref": obs}
+    fl = repeating.make_flowir({"interval": 2.0, "retries": sc.get("retries", 0), "check_output": False,
+                                "producer_repeat": False, "n_producers": 1}, tag)
+    try:
+        exp = harness.build_experiment(fl, location)
+    except Exception as e:
+        res["build_error"] = "%s: %s" % (type(e).__name__, str(e)[:300])
+        return res
+    st = exp.getStage(0)
+    eng = engine.Engine.engineForComponentSpecification(st.jobWithName("Obs" + tag))
+    pdir = st.jobWithName("ProdA" + tag).workingDirectory.path
+    with open(os.path.join(pdir, "data.txt"), "w") as f:
+        f.write("x\n")
+    harness.CTX.active = True
+    harness.CTX.jitter_p = 0.0
+    t0 = time.time()
+
+    def wait_dead(limit_v=80.0):
+        t = time.time()
+        while eng.isAlive():
+            if time.time() - t > limit_v / dilate.K or time.time() - t0 > watchdog_s:
+                return False
+            time.sleep(0.01)
+        return True
+
+    eng.run()
+    dilate.vsleep(sc.get("notify_at", 1.0))
+    eng.notify_all_producers_finished()
+    verdict = "done"
+    for i in range(4):
+        if not wait_dead():
+            verdict = "not-dead"
+            break
+        reason = harness._safe(eng.exitReason)
+        REC.record("drive.dead", obs, ok=True, reason=reason)
+        code = eng.restart()
+        REC.record("drive.restart", obs, code=code, engine_reason=reason)
+        if code != "RestartInitiated":
+            break
+        dilate.vsleep(0.5)
+    wait_dead(30.0)
+    REC.record("drive.end", obs, alive=eng.isAlive(), reason=harness._safe(eng.exitReason), restarts=eng.restarts)
+    harness.CTX.active = False
+    try:
+        eng.kill()
+    except Exception:
+        pass
+    BACKEND.close()
+    res.update({"verdict": verdict, "events": REC.snapshot(), "wall_s": round(time.time() - t0, 2)})
+    return res
+
+
+def judge_repeating(sc, res):
+    """At most one restart, and only when the execution that ended the engine's life exited ResourceExhausted."""
+    viol: List[Dict[str, Any]] = []
+    cnt = {"rep_restart_calls": 0, "rep_restart_initiated": 0, "rep_restart_refused": 0}
+    ref = res["ref"]
+    last_exit = None
+    initiated = 0
+    for e in res["events"]:
+        if e["comp"] != ref:
+            continue
+        if e["kind"] == "exit":
+            last_exit = e["reason"]
+        elif e["kind"] == "launch" and e.get("launch_error"):
+            last_exit = "LaunchFailed"
+        elif e["kind"] == "drive.restart":
+            cnt["rep_restart_calls"] += 1
+            if e["code"] == "RestartInitiated":
+                cnt["rep_restart_initiated"] += 1
+                initiated += 1
+                if initiated > 1:
+                    viol.append({"clause": "repeating-engine-restarted-more-than-once", "seq": e["seq"], "n": initiated})
+                if last_exit != "ResourceExhausted":
+                    viol.append({"clause": "repeating-engine-restarted-after-non-ResourceExhausted", "seq": e["seq"],
+                                 "last_exit": last_exit})
+            else:
+                cnt["rep_restart_refused"] += 1
     return viol, cnt
